@@ -186,8 +186,13 @@ def explore_recv(ctx, I: Interp, level: str, state: str = "idle", control_frame:
     return ctx.count_paths(I.explore(body))
 
 
+# the receive loop ("take frames until one is for the caller"): recv_data_frame itself, or the private body it delegates to
+# under the read lock
+RECV_LOOP = ("_core:WebSocket.recv_data_frame", "_core:WebSocket._recv_data_frame")
+
+
 def recv_config(extra_stubs=None, **kw) -> Config:
     cfg = Config(stubs=frame_stubs(extra_stubs), **kw)
-    cfg.single_iteration = {"_core:WebSocket.recv_data_frame"}
+    cfg.single_iteration = set(RECV_LOOP)
     cfg.record_calls = {"_abnf:ABNF.validate", "_abnf:ABNF._is_valid_close_status", "_abnf:ABNF.__init__"}
     return cfg
